@@ -328,6 +328,15 @@ class Evaluator:
                 return v[0] == "ok" and (sub is None or self.bind(sub, v[1], env))
             if seg == "Err":
                 return v[0] == "err" and (sub is None or self.bind(sub, v[1], env))
+            if v[0] == "ctor":
+                subs = p["pats"] if k == "pts" else [f["p"] for f in p.get("fields", [])]
+                if hir.pat_path(p) != v[1]:
+                    return False
+                if len(subs) != len(v) - 2:
+                    raise Unrecognised("constructor pattern arity")
+                return all(self.bind(q, x, env) for q, x in zip(subs, v[2:]))
+            if v[0] == "enum":
+                return False if hir.pat_path(p) != v[1] else True
             raise Unrecognised(f"pattern {seg}")
         if k == "ppath":
             path = p["path"]
@@ -336,6 +345,8 @@ class Evaluator:
             return v[0] == "enum" and v[1] == path
         if k == "por":
             return any(self.bind(q, v, env) for q in p["pats"])
+        if k in ("pref", "pderef") and isinstance(p.get("p"), dict):
+            return self.bind(p["p"], v, env)
         if k == "prange":
             if v[0] == "int":
                 return v[1] in hir.pat_ints(p)
@@ -380,6 +391,14 @@ class Evaluator:
         return False
 
     def apply(self, clo, args):
+        if clo[0] == "enum":          # a function item used as a value (`.map(is_bright)`)
+            path = clo[1]
+            if path in self.atoms:
+                a = self.atoms[path]
+                return a(args) if callable(a) else a
+            crate = path.lstrip("<&").split("::")[0]
+            if crate in self.inline_crates and path in self.facts.crate(crate)["_bodies"]:
+                return self.call_fn(crate, path, args)
         if clo[0] != "closure":
             raise Unrecognised("call of a non-closure value")
         node, cenv = clo[1], clo[2]
